@@ -658,10 +658,10 @@ size_t SCPI_ResultError(scpi_t * context, scpi_error_t * error) {
  */
 size_t SCPI_ResultArbitraryBlockHeader(scpi_t * context, size_t len) {
     size_t result = 0;
-    char block_header[12];
+    char block_header[13]; /* '#', digit count, up to 10 digits of an uint32_t, terminator */
     size_t header_len;
     block_header[0] = '#';
-    SCPI_UInt32ToStrBase((uint32_t) len, block_header + 2, 10, 10);
+    SCPI_UInt32ToStrBase((uint32_t) len, block_header + 2, 11, 10);
 
     header_len = strlen(block_header + 2);
     block_header[1] = (char) (header_len + '0');
